@@ -325,6 +325,10 @@ func (u *Unit) frameFormula(comp *Comp, before, after *Term, reg *Region, allocB
 func (u *Unit) refInvariant(cn string, val, alloc *Term) *Term {
 	enc := u.v.enc
 	comp := enc.comps[cn]
+	if comp != nil && comp.Kind == "map" {
+		// reference 0 is the nil map, which reads as empty and is never written
+		return Eq(Select(val, IntLit(0)), enc.EmptyMap(comp.Elem))
+	}
 	if comp == nil || comp.ElemT == nil || (comp.Kind != "field" && comp.Kind != "deref") {
 		return nil
 	}
@@ -640,6 +644,16 @@ func (u *Unit) atLoopHead(p *Path, h, pred *ssa.BasicBlock, ord int, back bool) 
 		p.assumes = append([]*Term(nil), p.assumes[:u.baseAssumes]...)
 		p.assume(Ge(allocBefore, u.entry.Get(u.cx, "alloc")))
 		p.localFacts = nil
+		// the enumeration this loop iterates over stays known
+		for _, in := range h.Instrs {
+			if nx, ok := in.(*ssa.Next); ok {
+				if it := p.iters[nx.Iter]; it != nil {
+					for _, f := range it.facts {
+						p.assume(f)
+					}
+				}
+			}
+		}
 		// user invariants were checked above against the precise state; they are re-assumed below
 		// against the abstracted one, so abstract only what no invariant needs precisely: nothing is
 		// abstracted if an invariant mentions the component (conservative: keep the precise term).
